@@ -237,7 +237,9 @@ def run_config(cfg):
         t.start()
         t.join()
         if "log" not in out.get(0, {}):
-            part.count("solo_history_already_wrong")  # C11's business
+            # wrong already when run alone (one thread after the other): reported, and nothing to compare schedules with
+            o = out.get(0, {})
+            part.fail(f"wrong-answer-run-alone:{'/'.join(cls)}", f"{nm}|{'/'.join(cls)}|alone", {"failure": json.dumps(o.get("failure"), default=str)[:300], "event": str(o.get("ev"))}, {"cfg": cfg})
             solo[nm] = None
         else:
             solo[nm] = comparable(HISTS[nm], out[0]["log"])
